@@ -126,6 +126,16 @@ Definition validate_vec (accs : list acct) (ls : list layer) (form k : Z) : out 
           | a :: r => do _ <- validate_layers a ls; go r
           end) accs.
 
+(* a derived account set with SEVERAL fields (star_frame_proc account_set/struct_impl/validate.rs): the generated
+   validate_accounts validates the unskipped fields in declaration order (no `requires` between them), each field with ITS
+   OWN stack of checks - the `#[validate(address = ..)]` written on a field is checked against that field's account - and
+   the first error is returned.  A field is the pair (the account decoded into it, its layer list); nested sets flatten *)
+Fixpoint validate_fields (fs : list (acct * list layer)) : out unit :=
+  match fs with
+  | [] => Ok tt
+  | (a, ls) :: r => do _ <- validate_layers a ls; validate_fields r
+  end.
+
 Definition args_fit (form k n : Z) : Prop := (form = 2 -> n <= k) /\ (form = 3 -> k = n).
 
 (* plain specification the layers are compared with *)
@@ -238,5 +248,29 @@ Definition run_c09v (input : list Z) : list Z :=
   | form :: k :: n :: r =>
       let '(accs, ls) := decode_accts (Z.to_nat n) r in
       out_tag (validate_vec accs (decode_layers (length ls) ls) form k)
+  | _ => []
+  end.
+
+(* c09s case: prog(32) :: shape :: nf :: nf * (key(32) owner(32) signer writable nl <nl integers: the field's layer list in
+   the encoding of decode_layers>).  `shape` only selects the Rust type in the harness: the model ignores it *)
+Fixpoint decode_fields (n : nat) (l : list Z) : list (acct * list layer) :=
+  match n with
+  | O => []
+  | S m =>
+      let k := firstn 32 l in
+      let r1 := skipn 32 l in
+      let owner := firstn 32 r1 in
+      match skipn 32 r1 with
+      | sg :: wr :: nl :: r2 =>
+          let ls := firstn (Z.to_nat nl) r2 in
+          (mkAcct k owner (bool_of_z sg) (bool_of_z wr) [] true, decode_layers (length ls) ls)
+            :: decode_fields m (skipn (Z.to_nat nl) r2)
+      | _ => []
+      end
+  end.
+
+Definition run_c09s (input : list Z) : list Z :=
+  match skipn 32 input with
+  | _shape :: nf :: r => out_tag (validate_fields (decode_fields (Z.to_nat nf) r))
   | _ => []
   end.
